@@ -583,6 +583,20 @@ fn c16(tier: &str) -> Vec<String> {
             v.push(format!("queue:cap=2:script={}:ff=1:order={}:prog=E0E0W", sc, order));
         }
     }
+    // the last handle is dropped while failing metrics are still queued (forced with a gated first
+    // call): the handler still sees every failure, once
+    for cap in ["u", "3"] {
+        for sc in ["be", "bee", "boe", "beo", "bie"] {
+            for order in ["hc", "ch"] {
+                v.push(format!("queue:cap={}:script={}:order={}:prog=E0E0E0D0O", cap, sc, order));
+                v.push(format!("queue:cap={}:script={}:order={}:prog=C0E0E1E0D0D1O", cap, sc, order));
+            }
+        }
+        for sc in ["e", "oe", "ee", "eoe"] {
+            v.push(format!("queue:cap={}:script={}:prog=E0E0E0D0", cap, sc));
+            v.push(format!("queue:cap={}:script={}:prog=C0E0E1D0E1D1", cap, sc));
+        }
+    }
     // a flush through the queuing sink never moves the handler (or the wrapped sink) to the caller
     for fam in ["seq", "backlog", "race"] {
         v.extend(queue_flush_programs(fam, tier));
